@@ -25,7 +25,8 @@ RULE = (
     "the thorough tier) of the built-in string/array filters except safe, newline_to_br, script_tag, stylesheet_tag; data strings over "
     "<>&'\" and entity fragments (&lt, &amp;, &#, percent- and base64-encoded specials), lists and hashes of them. Judged: no raw < > \" ' in "
     "the output and every & starts an escape sequence; Markup / __html__ data is output byte for byte; data without special characters renders "
-    "identically with autoescape off and on. Non-trivial = data contains >= 1 special character and the output is non-empty."
+    "identically with autoescape off and on; twin cases: the same text marked safe (Markup) goes through a filter chain first (in an earlier render of the "
+    "same environment, or assigned earlier in the same template) and the plain text through the same chain afterwards - the plain output must still be inert. Non-trivial = data contains >= 1 special character and the output is non-empty."
 )
 REQUIRED = [
     ("liquid/stringify.py", "to_liquid_string"),
@@ -34,7 +35,7 @@ REQUIRED = [
     ("liquid/builtin/filters/string.py", "escape_once"),
     ("liquid/builtin/filters/array.py", "join"),
 ]
-MIN_COUNTERS = {"filter_results_scanned": 2000, "outputs_scanned": 1000}
+MIN_COUNTERS = {"filter_results_scanned": 2000, "outputs_scanned": 1000, "twin_preludes_rendered": 100}
 
 AMP_OK = re.compile(r"&(amp|lt|gt|quot|apos|#\d+|#x[0-9a-f]+);", re.IGNORECASE)
 # filters that cut, remove or substitute parts of their input text
@@ -55,6 +56,13 @@ def scan(s: str) -> str | None:
         if not AMP_OK.match(s, i):
             return "bare-ampersand"
         i += 1
+
+
+def scan_alone(src: str, data: dict[str, Any]):
+    """Scan result of the source rendered in a brand-new environment (no history)."""
+    e = drv.make_env({"autoescape": True, "extra": True}, loader=DictLoader(dict(PARTIALS)))
+    r = drv.parse_and_render(e, src, data)
+    return scan(r.value) if r.ok else "error"
 
 
 REC: dict[str, Any] = {"first_bad": None, "n": 0}
@@ -134,6 +142,15 @@ def judge(ctx: core.Ctx, case: dict[str, Any]) -> None:
             return
         ctx.ok((src, marked, case.get("as")), nontrivial=True)
         return
+    if case.get("kind") == "twin":
+        # history: the same text first goes through the filters marked safe (Markup), in an earlier render of the same environment
+        # or earlier in the same template (result assigned, not output); the plain twin rendered afterwards must still be escaped
+        d0 = dict(data)
+        d0["ms"] = Markup(data["s"]) if isinstance(data.get("s"), str) else data.get("s")
+        d0["mt"] = Markup(data["t"]) if isinstance(data.get("t"), str) else data.get("t")
+        pre = drv.parse_and_render(env(True), case["prelude"], d0)
+        ctx.count("twin_preludes_rendered" if pre.ok else "twin_prelude_failed")
+        data = d0
     REC.update(first_bad=None, n=0)
     o = drv.parse_and_render(env(True), src, data, use_async=case.get("async", False))
     ctx.count("filter_results_scanned", REC["n"])
@@ -150,6 +167,8 @@ def judge(ctx: core.Ctx, case: dict[str, Any]) -> None:
         from harness import shrink
 
         def still(s2: str) -> bool:
+            if case.get("kind") == "twin":
+                drv.parse_and_render(env(True), case["prelude"], data)
             r = drv.parse_and_render(env(True), s2, data)
             return r.ok and scan(r.value) == bad
 
@@ -164,6 +183,8 @@ def judge(ctx: core.Ctx, case: dict[str, Any]) -> None:
         else:
             mech = f"{fb[0]}({fb[2]})" if fb else "output-path:" + "+".join(sorted(used)[:3])
             sig = f"{'bare-ampersand' if bad == 'bare-ampersand' else 'raw-special'}:{mech}"
+            if case.get("kind") == "twin" and scan_alone(small, data) is None:
+                sig = f"history-dependent-escaping:{'+'.join(sorted(used)[:3])}"
         ctx.evaluations += 1
         ctx.violation(sig, f"autoescape on: {small!r:.300} with data {data!r:.200} rendered {o3.value if o3.ok else o3.err_class!r:.200} ({bad}; first unsafe Markup produced by {fb})", {"source": src, "shrunk": small})
         return
@@ -322,6 +343,17 @@ def cases(ctx: core.Ctx):
                     yield {"source": src, "data": V.enc({"s": hs, "t": "&lt;", "xs": [hs, "<"], "h": {"k": hs}, "os": [{"k": hs}]})}
         ctx.extra["filter_pairs_enumerated"] = True
     for i in range(ctx.budget(14000, 1_000_000)):
+        if i % 7 == 3:
+            # equal-but-distinct twins: Markup(text) goes through a filter chain, then the plain text through the same chain
+            c = chain(rng, rng.choice([1, 1, 2, 3]))
+            v = rng.choice(["s", "t"])
+            plain = rng.choice(["{{ " + v + c + " }}", "{% echo " + v + c + " %}", "{% assign v1 = " + v + c + " %}{{ v1 }}", "{% cycle " + v + ", t %}"])
+            pre = "{% assign junk = m" + v + c + " %}{{ m" + v + c + " }}"
+            if rng.random() < 0.5:
+                yield {"kind": "twin", "prelude": pre, "source": plain, "data": V.enc(gen_data(rng, hostile=True))}
+            else:
+                yield {"kind": "twin", "prelude": "", "source": "{% assign junk = m" + v + c + " %}" + plain, "data": V.enc(gen_data(rng, hostile=True))}
+            continue
         if i % 5 == 0:
             yield {"source": gen_scalar_source(rng), "data": V.enc(gen_data(rng, hostile=False)), "differential": True}
         else:
